@@ -13,7 +13,7 @@ Structural form, on `server::collect_changes`:
 """
 from engine import site_of
 from facts import callee_decl
-from flow import (tracer, switch_cond, is_try_switch, is_next_switch, deps_with_env, promoted_variant, required_outcomes, short)
+from flow import (tracer, switch_cond, is_try_switch, is_next_switch, deps_with_env, promoted_variant, required_outcomes, short, deep_origins, dep_closure)
 
 UPD = "bevy_replicon::server::replication_messages::updates::Updates"
 TICKS = "bevy_replicon::shared::replication::client_ticks::ClientTicks"
@@ -193,3 +193,64 @@ def r_first_sight(ctx):
     for k in ("marker-added", "visibility-gained", "component-added"):
         ctx.check(k in found, "collect_changes/forces-insertion/" + k, found.get(k, site_of(cc, tb)),
                   "no condition on the way to the mutation branch depends on `%s`: %s -- not guaranteed any more" % (k, why[k]), why[k])
+    r_empty_new_entity(ctx)
+
+
+def r_empty_new_entity(ctx):
+    """(d) An entity that is new for a client - it just started replicating, or its visibility was just gained - is written even when
+    it has no replicated component (an empty record): the forced write in the final per-client loop is taken under a condition that
+    depends on *both* reasons. (Part of first-sight completeness; separate function so that it gets its own instances.)"""
+    F = ctx.F
+    cc = ctx.fn("server::collect_changes")
+    sites = [(bb, t) for bb, t in cc.calls() if callee_decl(t) == UPD + "::add_changed_entity"]
+    forced = []
+    for bb, t in sites:
+        g = [x for x in required_outcomes(F, cc, bb) if not is_next_switch(cc, x[1])]
+        if any(c["kind"] == "boolcall" and c["name"] == UPD + "::changed_entity_added" and o == {False} for (_, c, o) in g) and \
+                not any(callee_decl(t2).endswith("write_component_cached") for b2, t2 in cc.calls() if cc.dominates(bb, b2) and b2 != bb and False):
+            forced.append((bb, g))
+    # the forced write is the one outside the component loop
+    comp_writes = [bb for bb, t in cc.calls() if callee_decl(t) == UPD + "::add_inserted_component"]
+    comp_loops = set()
+    for cb in comp_writes:
+        for h, bs in cc.loops_containing(cb):
+            comp_loops.add(h)
+    forced = [(bb, g) for (bb, g) in forced if not (comp_writes and any(bb in bs for cb in comp_writes for h, bs in [min(cc.loops_containing(cb), key=lambda hb: len(hb[1]))]))]
+    if not ctx.check(len(forced) == 1, "collect_changes/empty-entity-write", site_of(cc), "expected one forced write of an entity without component records, found %d" % len(forced)):
+        return
+    bb, g = forced[0]
+    names, gained = set(), False
+    # a short-circuit `a || b` stored in a local is `local = true` under `a`, else `local = b`: follow the control dependence too
+    extra_switches = []
+    for (sb, c, o) in g:
+        d = cc.blocks[sb].term["discr"]
+        if d.get("place") and not d["place"]["p"]:
+            locs, work = set(), [d["place"]["l"]]
+            while work:
+                l_ = work.pop()
+                if l_ in locs:
+                    continue
+                locs.add(l_)
+                for bb2, i2, st2 in cc.statements():
+                    if st2["s"] == "assign" and st2["place"] == {"l": l_, "p": []} and st2["rvalue"]["rv"] == "use" and st2["rvalue"]["op"].get("place") and not st2["rvalue"]["op"]["place"]["p"]:
+                        work.append(st2["rvalue"]["op"]["place"]["l"])
+            for bb2, i2, st2 in cc.statements():
+                if st2["s"] == "assign" and not st2["place"]["p"] and st2["place"]["l"] in locs and st2["rvalue"]["rv"] == "use" and st2["rvalue"]["op"].get("k") == "const":
+                    for (sb2, c2, o2) in required_outcomes(F, cc, bb2):
+                        if not is_next_switch(cc, c2):
+                            extra_switches.append(sb2)
+    for sb in [x[0] for x in g] + extra_switches:
+        for x in deep_origins(cc, cc.blocks[sb].term["discr"]):
+            if x.kind == "call":
+                ct = cc.blocks[x.data].term
+                names.add(callee_decl(ct).rsplit("::", 1)[-1])
+                for (k, d) in dep_closure(cc, ct["args"][0]) if ct.get("args") else []:
+                    if k == "call":
+                        names.add(callee_decl(cc.blocks[d].term).rsplit("::", 1)[-1])
+                if any(promoted_variant(cc, a, "Visibility") == "Gained" for a in ct.get("args", [])):
+                    gained = True
+    ctx.check("is_added" in names and "marker_id" in names, "collect_changes/empty-entity-write/when-replication-started", site_of(cc, bb),
+              "the empty record is not forced for an entity that just started replicating (conditions depend on %s)" % sorted(names))
+    ctx.check("entity_visibility" in names and gained, "collect_changes/empty-entity-write/when-visibility-gained", site_of(cc, bb),
+              "the empty record is not forced for an entity whose visibility was just gained: an entity without replicated components that becomes visible is never delivered "
+              "(conditions depend on %s)" % sorted(names))
